@@ -73,6 +73,8 @@
 
 // harness/c14_member.cpp (second translation unit): the ops `mem` and `mems` (member operators on objects in one memory)
 std::string c14_member_handle(std::vector<std::string> const &);
+// harness/c14_extra.cpp (third translation unit): the ops `nb`, `tp`, `inf` (neighbouring public API)
+std::string c14_extra_handle(std::vector<std::string> const &);
 
 namespace
 {
@@ -1343,6 +1345,8 @@ std::string handle1(std::vector<std::string> const &t)
       return det0_op();
     if (t[0] == "mem" || t[0] == "mems")
       return c14_member_handle(t);
+    if (t[0] == "nb" || t[0] == "tp" || t[0] == "inf")
+      return c14_extra_handle(t);
     return "bad-op";
   }
   catch (std::exception const &)
